@@ -107,9 +107,6 @@ func readEncoding(p *parser.Parser, charset []int32) ([]glyph.ID, error) {
 				return nil, err
 			}
 			gid := lookup[sid]
-			if gid >= currentGid {
-				return nil, invalidSince("invalid encoding supplement")
-			}
 			if gid != 0 {
 				res[code] = gid
 			}
@@ -123,13 +120,29 @@ func readEncoding(p *parser.Parser, charset []int32) ([]glyph.ID, error) {
 // The encoding vector is given as a slice of glyph IDs (length 256),
 // where the glyph ID 0 is used to indicate a missing glyph.
 //
-// The encoded glyphs must form a contiguous range starting at glyph ID 1.
+// The longest range of encoded glyphs starting at glyph ID 1 is stored
+// in the main part of the encoding.  All other codes are stored as
+// supplemental encoding data.
 //
-// The glyphNames argument is only used for supplemented encodings, where
-// one or more glyphs have multiple codes.
+// The glyphNames argument is only used for supplemented encodings.
 func encodeEncoding(encoding []glyph.ID, glyphNames []int32) ([]byte, error) {
-	var maxGid glyph.ID
 	codes := map[glyph.ID]uint8{}
+	for code, gid := range encoding {
+		if gid == 0 {
+			continue
+		}
+		if _, ok := codes[gid]; !ok {
+			codes[gid] = uint8(code)
+		}
+	}
+	var maxGid glyph.ID
+	for {
+		if _, ok := codes[maxGid+1]; !ok {
+			break
+		}
+		maxGid++
+	}
+
 	type suppl struct {
 		code uint8
 		gid  glyph.ID
@@ -140,13 +153,16 @@ func encodeEncoding(encoding []glyph.ID, glyphNames []int32) ([]byte, error) {
 			continue
 		}
 		c8 := uint8(code)
-		if _, ok := codes[gid]; ok {
+		if gid > maxGid || codes[gid] != c8 {
 			extra = append(extra, suppl{c8, gid})
-			continue
 		}
-		codes[gid] = c8
-		if gid > maxGid {
-			maxGid = gid
+	}
+	if len(extra) > 255 {
+		return nil, invalidSince("too many supplemental codes")
+	}
+	for _, s := range extra {
+		if int(s.gid) >= len(glyphNames) {
+			return nil, invalidSince("encoded glyph does not exist")
 		}
 	}
 
@@ -156,21 +172,19 @@ func encodeEncoding(encoding []glyph.ID, glyphNames []int32) ([]byte, error) {
 	}
 	var ss []seg
 
-	startGid := glyph.ID(1)
-	startCode := codes[startGid]
-	for gid := glyph.ID(1); gid <= maxGid; gid++ {
-		code, ok := codes[gid]
-		if !ok {
-			msg := fmt.Sprintf("encoded glyphs not contiguous (glyph %d not encoded)", gid)
-			return nil, invalidSince(msg)
+	if maxGid > 0 {
+		startGid := glyph.ID(1)
+		startCode := codes[startGid]
+		for gid := glyph.ID(1); gid <= maxGid; gid++ {
+			code := codes[gid]
+			if int(gid-startGid) != int(code)-int(startCode) {
+				ss = append(ss, seg{startCode, uint8(gid - startGid - 1)})
+				startGid = gid
+				startCode = code
+			}
 		}
-		if int(gid-startGid) != int(code)-int(startCode) {
-			ss = append(ss, seg{startCode, uint8(gid - startGid - 1)})
-			startGid = gid
-			startCode = code
-		}
+		ss = append(ss, seg{startCode, uint8(maxGid - startGid)})
 	}
-	ss = append(ss, seg{startCode, uint8(maxGid - startGid)})
 	if len(ss) > 255 {
 		return nil, invalidSince("too many segments")
 	}
